@@ -10,6 +10,8 @@ import (
 	"os"
 	"sync"
 	"time"
+
+	"github.com/influxdata/influxdb/pkg/verifhook"
 )
 
 const (
@@ -303,6 +305,14 @@ func (ln *listener) Addr() net.Addr {
 
 // Dial connects to a remote mux listener with a given header byte.
 func Dial(network, address string, header byte) (net.Conn, error) {
+	if verifhook.Enabled {
+		if conn, err, ok := verifhook.Dial(network, address, 0); ok {
+			if err != nil {
+				return nil, err
+			}
+			return WriteHeader(conn, header)
+		}
+	}
 	conn, err := net.Dial(network, address)
 	if err != nil {
 		return nil, err
